@@ -272,8 +272,9 @@ _SYNTH_ALGO = [("n", "int", [1, 2, 3], 2), ("f", "float", [0.5, 1.0, 2.0], 0.5),
 
 
 def _shapes_algos(tier):
-    out = [dict(algo=a) for a in _algo_names()]
-    out.append(dict(algo=None, defs=[list(d) for d in _SYNTH_ALGO]))
+    step = 1 if tier == "thorough" else 6     # profiles handled per path
+    out = [dict(algo=a, step=step) for a in _algo_names()]
+    out.append(dict(algo=None, defs=[list(d) for d in _SYNTH_ALGO], step=step))
     return out
 
 
@@ -910,7 +911,9 @@ def h_create_agents(env):
         if focus == "hosting":
             for c in comps:
                 got, want = env.call(a.hosting_cost, c), ref.hosting_cost(c)
-                P("create_agents.hosting-costs-as-individually-built", (not isinstance(got, Raised)) and _num_same(got, want),
+                listed = c in (kw.get("hosting_costs") or {})
+                P("create_agents.specific-hosting-cost-as-individually-built" if listed else "create_agents.default-hosting-cost-as-individually-built",
+                  (not isinstance(got, Raised)) and _num_same(got, want),
                   lambda: dict(agent=a.name, computation=c, got=got, individually=want, args=sorted(kw)))
         if focus == "extras":
             for k, v in extras.items():
